@@ -288,7 +288,7 @@ def replay_key(d):
     if k.startswith("gen-"):
         det = d.get("detail")
         return (k, d.get("decl_sexp"), det[0] if isinstance(det, list) and det else None)
-    if k == "rec-input":
+    if k in ("rec-input", "rec-input-seq"):
         return (k, d.get("fn"), d.get("hex"))
     if k == "cel":
         return (k, d.get("type"), d.get("expression"), d.get("binding"))
